@@ -138,10 +138,22 @@ func init() {
 		Run: func(c *Ctx) {
 			n := c.N(600, 30000)
 			seenNonce := map[string]bool{}
-			for i := 0; i < n; i++ {
-				ac := genAuthCase(c.Rng)
+			// always: the iteration counts at and around the powers of two and the values servers really use
+			var fixed []authCase
+			for _, mech := range []string{"SCRAM-SHA-1", "SCRAM-SHA-256"} {
+				for _, iter := range []int{4096, 10000, 16384, 16385, 20000, 32768, 65536, 65537, 100000} {
+					fixed = append(fixed, authCase{mech: mech, user: "iter-user", pass: "iter-pass", srvPass: "iter-pass", salt: []byte("fixed-salt-16byt"), iter: iter})
+				}
+			}
+			for i := 0; i < n+len(fixed); i++ {
+				var ac authCase
+				if i < len(fixed) {
+					ac = fixed[i]
+				} else {
+					ac = genAuthCase(c.Rng)
+				}
 				sc, ss := ac.scenario()
-				if c.Rng.Chance(30) {
+				if i >= len(fixed) && c.Rng.Chance(30) {
 					// the SAME Client dials a second time (Close in between) against a fresh incarnation of the server: a
 					// conforming verifier accepts exactly when the credentials are right, on every connection (the PLUS
 					// variants: channel-binding data of THIS connection)
